@@ -55,7 +55,7 @@ type c07Case struct {
 }
 
 func genC07(t *rapid.T) c07Case {
-	c := c07Case{Lifetime: time.Duration(rapid.SampledFrom([]int{1, 2, 5, 60, 600, 3600}).Draw(t, "lifetime")) * time.Second}
+	c := c07Case{Lifetime: time.Duration(rapid.SampledFrom([]int{1000, 2000, 5000, 60000, 600000, 3600000, 300, 1500, 2750}).Draw(t, "lifetime")) * time.Millisecond}
 	n := rapid.IntRange(1, 6).Draw(t, "ntok")
 	for i := 0; i < n; i++ {
 		c.Users = append(c.Users, rapid.SampledFrom([]string{"bob", "alice", "root", "b@x-_.", "a", "bob:true", "x:y:z", "", "Ünï", "true", "false", strings.Repeat("u", 300)}).Draw(t, "user"))
@@ -127,7 +127,7 @@ func runC07(c c07Case, exhaustiveBits bool) string {
 		for _, it := range toks {
 			if it.fac == fi && string(it.nonce) == string(n) && string(it.ct) == string(ct) {
 				age := time.Since(it.at)
-				if age > c.Lifetime+time.Second {
+				if age > c.Lifetime { // tokens carry the issue time rounded DOWN to a second: they may look older than they are, never younger
 					return fmt.Sprintf("VIOLATION C07: [%s] token accepted at age %v, lifetime %v", kind, age, c.Lifetime)
 				}
 				if user != it.user || admin != it.admin {
@@ -261,9 +261,17 @@ func runC07(c c07Case, exhaustiveBits bool) string {
 		plain  string
 		accept int // 1 must accept, 0 must reject, -1 either
 	}
+	// a sealed issue time inside the window is accepted, outside it refused: the apparent age (the clock may stand
+	// anywhere inside the current second) is compared with the lifetime exactly as the statement says
+	window := func(ts int64) pt {
+		a := time.Since(time.Unix(ts, 0))
+		if a < 0 || a > c.Lifetime {
+			return pt{fmt.Sprintf("bob:true:%d", ts), 0}
+		}
+		return pt{fmt.Sprintf("bob:true:%d", ts), 1}
+	}
 	cases := []pt{
-		{fmt.Sprintf("bob:true:%d", now), 1}, {fmt.Sprintf("bob:false:%d", now-lt+1), 1},
-		{fmt.Sprintf("bob:true:%d", now-lt), -1}, {fmt.Sprintf("bob:true:%d", now-lt-1), 0}, {fmt.Sprintf("bob:true:%d", now-lt-2), 0},
+		window(now), window(now - lt + 1), window(now - lt), window(now - lt - 1), window(now - lt - 2), window(now - 1),
 		{fmt.Sprintf("bob:true:%d", now+1), 0}, {fmt.Sprintf("bob:true:%d", now+1000), 0}, {"bob:true:0", 0}, {"bob:true:-1", 0},
 		{fmt.Sprintf("bob:True:%d", now), 0}, {fmt.Sprintf("bob:TRUE:%d", now), 0}, {fmt.Sprintf("bob:1:%d", now), 0}, {fmt.Sprintf("bob::%d", now), 0},
 		{fmt.Sprintf("bob:t:%d", now), 0}, {fmt.Sprintf("bob:true :%d", now), 0}, {fmt.Sprintf("bob:true:%d:x", now), 0}, {fmt.Sprintf("bob:true:%d ", now), 0},
@@ -284,7 +292,8 @@ func runC07(c c07Case, exhaustiveBits bool) string {
 			return fmt.Sprintf("VIOLATION C07: sealed plaintext %q accepted as (%q,%v) (lifetime %ds, now %d)", pc.plain, u, a, lt, now)
 		}
 	}
-	// ageing: every issued token must be refused once older than the lifetime; accepted while younger than lifetime-1s
+	// ageing: every issued token must be refused once older than the lifetime (strictly: not one nanosecond of grace);
+	// it must be accepted while younger than lifetime-1s (the stored issue time is a whole second)
 	steps := []time.Duration{c.Lifetime - 1500*time.Millisecond, 400 * time.Millisecond, 200 * time.Millisecond, 900 * time.Millisecond, time.Nanosecond, time.Second, 10 * c.Lifetime}
 	for _, d := range steps {
 		if d > 0 {
@@ -294,7 +303,7 @@ func runC07(c c07Case, exhaustiveBits bool) string {
 			age := time.Since(it.at)
 			st, _, _, _ := facs[it.fac].Check(it.tok)
 			bucket := "young"
-			if age > c.Lifetime+time.Second {
+			if age > c.Lifetime { // one-sided: the whole-second issue time can only make a token look older
 				bucket = "expired"
 			} else if age > c.Lifetime-time.Second {
 				bucket = "edge"
